@@ -97,8 +97,11 @@ async def _idle_case(loop, idle, gaps, partial_at, sock=None, wait=1, transfer=N
     return out
 
 
-async def _wait_case(loop, wait, delta, verb):
+async def _wait_case(loop, wait, delta, verb, pool=None):
     kw = {"wait_future_timeout": wait}
+    if pool:
+        kw["data_ports"] = list(pool)  # the session's listener holds the only port there is: giving up on a data
+        # connection is not giving up on the listener, and a new EPSV afterwards finds a port
     wd = W.World(loop, S.USERS_ANON, server_kwargs=kw)
     await wd.start()
     out = {}
@@ -365,6 +368,9 @@ def gen(ctx):
         for verb in ("RETR", "STOR", "LIST", "MLSD"):
             for delta in (None, 0.25, 0.75, 1.0, 1.25, 2.25, 2.5, 2.75, 4.0):
                 jobs.append(("wait", wait, delta, verb))
+    for verb in ("RETR", "STOR", "LIST", "MLSD"):
+        for delta in (None, 2.0):
+            jobs.append(("wait", 1, delta, verb, [41001]))
     for sock in (None, 0, 2, 5):
         for direction in ("stor", "retr"):
             for k in range(0, 4):
